@@ -271,9 +271,13 @@ def m_kwargs_param(draw, ir):
     ir["params"].append(p)
 
 
-def m_returns(draw, ir):
+def _short_type(draw):
     typ, _ = draw(type_and_defaults())
-    ir["returns"] = OrderedDict(typ=typ, doc=draw(prose()))
+    return typ if len(typ) <= 58 else draw(st.sampled_from(SCALARS))  # long types are the knob `long_type`
+
+
+def m_returns(draw, ir):
+    ir["returns"] = OrderedDict(typ=_short_type(draw), doc=draw(prose()))
 
 
 def m_returns_default(draw, ir):
@@ -289,8 +293,7 @@ def m_returns_untyped(draw, ir):
 
 
 def m_returns_undocumented(draw, ir):
-    typ, _ = draw(type_and_defaults())
-    ir["returns"] = OrderedDict(typ=typ)
+    ir["returns"] = OrderedDict(typ=_short_type(draw))
 
 
 def m_returns_only(draw, ir):
